@@ -36,31 +36,76 @@ Fixpoint skip_to_paren (x : str) : option (str * str) :=   (* [^\)]*\)  -> (cons
   | ")" :: r => Some ([")"], r)
   | c :: r => match skip_to_paren r with Some (a, b) => Some (c :: a, b) | None => None end
   end.
+(* Property.fmt: a blank is put between url(...) and a following token. The substitution scans left to right; a quoted string is
+   copied as a unit (outside and inside the parentheses); inside url( a quote that opens no string makes the url( not match *)
+Definition is_quote (c : ascii) : bool := Ascii.eqb c """" || Ascii.eqb c "'".
+Fixpoint skip_string (q : ascii) (x : str) : option (str * str) :=       (* x starts after the opening quote *)
+  match x with
+  | [] => None
+  | c :: r => if Ascii.eqb c q then Some ([c], r)
+              else match skip_string q r with Some (a, b) => Some (c :: a, b) | None => None end
+  end.
+Fixpoint skip_url_inside (fuel : nat) (x : str) : option (str * str) :=  (* x starts after "url(" ; result ends with ")" *)
+  match fuel with
+  | O => None
+  | S f =>
+    match x with
+    | [] => None
+    | c :: r =>
+        if Ascii.eqb c ")" then Some ([c], r)
+        else if is_quote c then
+          match skip_string c r with
+          | Some (s, r') => match skip_url_inside f r' with Some (a, b) => Some (c :: s ++ a, b) | None => None end
+          | None => None
+          end
+        else match skip_url_inside f r with Some (a, b) => Some (c :: a, b) | None => None end
+    end
+  end.
 Fixpoint url_fix (fuel : nat) (x : str) : str :=
   match fuel with
   | O => x
   | S f =>
     match x with
-    | "u" :: "r" :: "l" :: "(" :: r =>
-        match skip_to_paren r with
-        | Some (inside, rest) =>
-            match rest with
-            | c :: _ => if is_space c || Ascii.eqb c ","
-                        then "u" :: "r" :: "l" :: "(" :: inside ++ url_fix f rest
-                        else "u" :: "r" :: "l" :: "(" :: inside ++ " " :: url_fix f rest
-            | [] => x
-            end
-        | None => x
-        end
-    | c :: r => c :: url_fix f r
     | [] => []
+    | c :: r =>
+        if is_quote c then
+          match skip_string c r with
+          | Some (s, r') => c :: s ++ url_fix f r'
+          | None => c :: url_fix f r
+          end
+        else
+          match (match x with
+                 | "u" :: "r" :: "l" :: "(" :: r4 => skip_url_inside (S (length r4)) r4
+                 | _ => None
+                 end) with
+          | Some (inside, rest) =>
+              match rest with
+              | d :: _ => if is_space d || Ascii.eqb d "," then c :: url_fix f r
+                          else "u" :: "r" :: "l" :: "(" :: inside ++ " " :: url_fix f rest
+              | [] => c :: url_fix f r
+              end
+          | None => c :: url_fix f r
+          end
     end
+  end.
+
+(* a blank after every comma token of the value, except inside an interpolated string (between two lone quote tokens) *)
+Fixpoint comma_ws (ws : str) (quote : option str) (parsed : list str) : list str :=
+  match parsed with
+  | [] => []
+  | p :: r =>
+      match quote with
+      | None => if str_eqb p [""""] || str_eqb p ["'"] then p :: comma_ws ws (Some p) r
+                else if str_eqb p [","] then ("," :: ws) :: comma_ws ws None r
+                else p :: comma_ws ws None r
+      | Some q => if str_eqb p q then p :: comma_ws ws None r else p :: comma_ws ws quote r
+      end
   end.
 
 Definition prop_fmt (fl : fills) (name : str) (parsed : list str) (important : bool) : str :=
   let parsed := match f_nl fl with
                 | [] => parsed
-                | _ => map (fun p => if str_eqb p [","] then "," :: f_ws fl else p) parsed
+                | _ => comma_ws (f_ws fl) None parsed
                 end in
   let style := url_fix (S (length (concat_str parsed))) (concat_str parsed) in
   f_tab fl ++ name ++ [":"] ++ f_ws fl ++ strip_ws style ++ (if important then $" !important" else []) ++ [";"] ++ f_nl fl.
